@@ -124,7 +124,103 @@ fn sub_decoder(d: Dec, bytes: &[u8]) -> String {
     }
 }
 
+// ---------------------------------------------------------------------------
+// Crash guard: inputs that kill the process (an allocation of terabytes aborts, it does not panic)
+// ---------------------------------------------------------------------------
+// The whole input enumeration is first replayed in a forked child that only calls the decoders and
+// publishes the index of the call it is about to make in shared memory. If the child dies by a
+// signal, that index names the fatal input; it is added to a skip set and the screening restarts.
+// The real run then reports every fatal index as a violation instead of decoding it.
+use std::sync::atomic::{AtomicBool, AtomicU64, Ordering};
+static CALL_IDX: AtomicU64 = AtomicU64::new(0);
+static SCREENING: AtomicBool = AtomicBool::new(false);
+static SHARED: AtomicU64 = AtomicU64::new(0); // address of the shared counter (0 = none)
+static FATAL: std::sync::Mutex<Vec<(u64, i32)>> = std::sync::Mutex::new(Vec::new());
+
+/// Runs `f` in a forked child. Ok(()) if the child exited normally, Err(signal) if it was killed.
+pub fn survives(f: impl FnOnce()) -> Result<(), i32> {
+    unsafe {
+        let pid = libc::fork();
+        if pid < 0 {
+            return Ok(()); // cannot fork: no screening (the in-process run decides)
+        }
+        if pid == 0 {
+            // quiet child: its panic messages and aborts are not the check's output
+            let devnull = libc::open(b"/dev/null\0".as_ptr() as *const libc::c_char, libc::O_WRONLY);
+            if devnull >= 0 {
+                libc::dup2(devnull, 1);
+                libc::dup2(devnull, 2);
+            }
+            let _ = std::panic::catch_unwind(std::panic::AssertUnwindSafe(f));
+            libc::_exit(0);
+        }
+        let mut status: libc::c_int = 0;
+        loop {
+            let r = libc::waitpid(pid, &mut status, 0);
+            if r == pid || r < 0 {
+                break;
+            }
+        }
+        if libc::WIFSIGNALED(status) {
+            Err(libc::WTERMSIG(status))
+        } else {
+            Ok(())
+        }
+    }
+}
+
+fn screen_for_fatal_inputs(ctx: &mut Ctx) {
+    let shared = unsafe { libc::mmap(std::ptr::null_mut(), 8, libc::PROT_READ | libc::PROT_WRITE, libc::MAP_SHARED | libc::MAP_ANONYMOUS, -1, 0) };
+    if shared == libc::MAP_FAILED {
+        return;
+    }
+    SHARED.store(shared as u64, Ordering::SeqCst);
+    for _round in 0..3 {
+        unsafe { *(shared as *mut u64) = u64::MAX };
+        CALL_IDX.store(0, Ordering::SeqCst);
+        SCREENING.store(true, Ordering::SeqCst);
+        let r = survives(|| run_inputs(ctx));
+        SCREENING.store(false, Ordering::SeqCst);
+        match r {
+            Ok(()) => break,
+            Err(sig) => {
+                let idx = unsafe { *(shared as *const u64) };
+                if idx == u64::MAX {
+                    break; // died before the first input: not attributable
+                }
+                FATAL.lock().unwrap().push((idx, sig));
+            }
+        }
+    }
+    CALL_IDX.store(0, Ordering::SeqCst);
+    SHARED.store(0, Ordering::SeqCst);
+    unsafe { libc::munmap(shared, 8) };
+    ctx.extra.insert("inputs_fatal_to_the_process".into(), json!(FATAL.lock().unwrap().len()));
+}
+
 fn check_one(ctx: &mut Ctx, d: Dec, bytes: &[u8], origin: &str) {
+    let idx = CALL_IDX.fetch_add(1, Ordering::SeqCst);
+    let fatal = FATAL.lock().unwrap().iter().find(|(i, _)| *i == idx).map(|(_, s)| *s);
+    if SCREENING.load(Ordering::SeqCst) {
+        if fatal.is_none() {
+            let sh = SHARED.load(Ordering::SeqCst);
+            if sh != 0 {
+                unsafe { *(sh as *mut u64) = idx };
+            }
+            let _ = catch(|| decode(d, bytes));
+        }
+        return;
+    }
+    if let Some(sig) = fatal {
+        ctx.eval();
+        ctx.class("fatal_to_the_process");
+        ctx.violation(
+            &format!("C10|decoder={}|process_killed|signal={}", sub_decoder(d, bytes), sig),
+            format!("{:?} decoder killed the process (signal {}) on a {}-byte input ({}): typically an allocation request far beyond memory", d, sig, bytes.len(), origin),
+            json!({"decoder": d, "hex": hex::encode(&bytes[..bytes.len().min(4096)]), "len": bytes.len(), "origin": origin}),
+        );
+        return;
+    }
     ctx.eval();
     let p = probe(d, bytes);
     if !p.ok && !bytes.is_empty() {
@@ -227,6 +323,18 @@ const U32_BOUNDARY: [u32; 9] = [0, 1, 2, 255, 256, 65536, 1 << 31, u32::MAX, 0x0
 pub fn run(ctx: &mut Ctx) {
     ctx.rule = "for every decoder fed by peers or disk: (1) all truncations of valid encodings from the C09 generators, (2) every u32-aligned-or-not 4-byte window in the first 200 bytes and at every embedded transaction header overwritten with boundary values {0,1,2,255,256,2^16,2^24-1,2^31,2^32-1} and real+-1, every byte in the first 100 bytes set to all 256 values, (3) random strings and random mutations (flip, splice, duplicate, truncate+extend) of valid encodings; oracle: outcome is Ok or Err (a panic is a violation keyed by decoder and panic site) and peak allocation <= 64*len + 64 KiB (counting global allocator). non-trivial = input is rejected (not a valid encoding) and >= 1 byte; distinct by (decoder, bytes) digest".into();
     ctx.assumptions.push("Allocation is measured with a process-wide counting allocator; checks run single-threaded.".into());
+    ctx.assumptions.push("Allocation requests of a gigabyte or more are served by the harness allocator from an unreserved mapping, so that a terabyte request caused by a hostile length field is measured instead of aborting the process; as a second net the whole enumeration is replayed once in a forked child that only calls the decoders, and an input that kills that child is reported as a violation and not decoded in the main process.".into());
+    // a second net behind the allocator's handling of giant requests: one screening pass in a child
+    screen_for_fatal_inputs(ctx);
+    run_inputs(ctx);
+    ctx.sample_cap = 20;
+    if ctx.tier == crate::ctx::Tier::Thorough {
+        let seeds = seeds(ctx.seed, ctx.tier.pick(6usize, 40));
+        fuzz_campaign(ctx, &seeds);
+    }
+}
+
+fn run_inputs(ctx: &mut Ctx) {
     let per = ctx.tier.pick(6usize, 40);
     let seeds = seeds(ctx.seed, per);
     ctx.extra.insert("seed_encodings".into(), json!(seeds.len()));
@@ -323,10 +431,6 @@ pub fn run(ctx: &mut Ctx) {
             }
         }
         check_one(ctx, *d, &m, "mutation");
-    }
-    ctx.sample_cap = 20;
-    if ctx.tier == crate::ctx::Tier::Thorough {
-        fuzz_campaign(ctx, &seeds);
     }
 }
 
@@ -457,6 +561,17 @@ pub fn replay(ctx: &mut Ctx, v: &serde_json::Value) -> bool {
         Some(b) => b,
         None => return false,
     };
+    if let Err(sig) = survives(|| {
+        let _ = catch(|| decode(d, &bytes));
+    }) {
+        ctx.eval();
+        ctx.violation(
+            &format!("C10|decoder={}|process_killed|signal={}", sub_decoder(d, &bytes), sig),
+            format!("{:?} decoder killed the process (signal {}) on a {}-byte input (replay)", d, sig, bytes.len()),
+            json!({"decoder": d, "hex": hex::encode(&bytes[..bytes.len().min(4096)]), "len": bytes.len(), "origin": "replay"}),
+        );
+        return true;
+    }
     check_one(ctx, d, &bytes, "replay");
     true
 }
